@@ -9,6 +9,18 @@ CLAIMED = {
          "Trusts: the channel shim's fidelity to crossbeam-channel's documented bounded/zero-capacity semantics, the queue model in sim/tsim/src/appender.rs, sequential consistency, the parking_lot feature configuration.", "DESIGN.md 5 C15"),
 }
 
+CLAIMED.update({
+ "C01": ("core-sim", "deterministic simulation: seeded multi-thread histories (total order of whole operations, one fresh process per seed so every callsite starts unregistered) over the real tracing-core + macros; dispatch and filter reference models as oracle",
+         "Seeded exploration of histories {create/drop collector, open/close scope, with_default incl. panics, set_global_default, emit event/span, enabled!, rebuild_interest_cache, flip dynamic filter} on 1-3 threads; every emission must reach exactly the thread's current collector iff that collector's own filter accepts it at that stamp; MAX_LEVEL is checked as an upper bound after every collector change. Sampling, not proof.",
+         "Trusts: the dispatch model (A1) and filter model (A2) in sim/tsim/src/core_sim.rs and rec.rs; collectors are self-consistent recording stubs; portable-atomic feature configuration.", "DESIGN.md 5 C01"),
+ "C02": ("core-sim", "deterministic simulation: seeded histories (op granularity) and seeded schedules (every tracing-core atomic operation a preemption point) with the one-shot global default placed anywhere in the history; one process per run; dispatch reference model with an interval rule for overlaps",
+         "Seeded exploration of scope open/close (guards, with_default, unwinding), set_global_default attempts from any thread and emissions on 1-4 threads, both as total orders of operations and under PCT/random/targeted schedules at atomic-operation granularity; receiver identity of every emission and of get_default is compared with the model; set_global_default must succeed exactly once. Sampling, not proof.",
+         "Trusts: the dispatch model (A1); sequential consistency (GLOBAL_DISPATCH is a static mut published by a SeqCst store - weak memory is not explored).", "DESIGN.md 5 C02"),
+ "C04": ("core-sim", "deterministic simulation: seeded schedules (PCT, random walk, targeted preemption, run-to-block) of 2-3 racing threads at every atomic operation and at the dispatcher-list lock (hook H1), deadlock detection in the scheduler, quiescence probe phase against the filter model",
+         "Seeded exploration of interleavings of first callsite hits, Dispatch::new/drop, set_default, set_global_default and rebuild_interest_cache; no panic/deadlock/hang, exact delivery during the race for collectors installed before the emission, and at quiescence every live collector is offered every registered callsite and receives exactly what its filter accepts. Sampling, not proof.",
+         "Trusts: the atomics shim and hook H1 represent every synchronisation point of the registration/dispatch paths; sequential consistency only; <=3 threads.", "DESIGN.md 5 C04"),
+})
+
 NOT_BUILT = {
 }
 
